@@ -360,6 +360,13 @@ func runWriter(o wopts, input []byte, calls []wcall, sink *recSink, blocks *[]in
 			} else if c.N == 100 || c.N == 101 {
 				// re-configure: legacy format off / on
 				r.Err = classify(zw.Apply(lz4.LegacyOption(c.N == 101)))
+			} else if c.N == 200 || c.N == 201 {
+				// re-configure: content size withdrawn / announced (77)
+				r.Err = classify(zw.Apply(lz4.SizeOption(uint64(77 * (c.N - 200)))))
+			} else if c.N == 210 || c.N == 211 {
+				r.Err = classify(zw.Apply(lz4.BlockChecksumOption(c.N == 211)))
+			} else if c.N == 220 || c.N == 221 {
+				r.Err = classify(zw.Apply(lz4.ChecksumOption(c.N == 221)))
 			} else {
 				r.Err = classify(zw.Apply(lz4.BlockChecksumOption(o.BCS)))
 			}
